@@ -1,6 +1,6 @@
 \* netcode, ServerAuthentication::Unsecure (all-zero connect key, host list ignored): two holders of self-made tokens (one listing
 \* a foreign host) and one holder of a token sealed with the real private key, 2 slots; exchanges, departures, server
-\* disconnects and time in any order (6 steps; the thorough tier runs 8: MC_NC_unsec_t): the zero-key tokens connect, the other never does, the table clauses hold.
+\* disconnects and time in any order (9 steps, 11 125 states; the thorough tier adds exchanges presented from foreign addresses: MC_NC_unsec_t, 8 steps, 1.0 M states): the zero-key tokens connect, the other never does, the table clauses hold.
 SPECIFICATION Spec
 CONSTANTS
   Tokens <- Toks_unsec
@@ -10,12 +10,12 @@ CONSTANTS
   ServerAddrs = 1
   TokenSingleUse = TRUE
   TokenTable = 2048
-  MaxSteps = 6
+  MaxSteps = 9
   Addrs = {1, 2, 3}
   Dts = {250}
   CraftToks = {}
   MaxPresent = 2
-  Calls = {"exchange", "disconnect", "leave", "hijack"}
+  Calls = {"exchange", "disconnect", "leave"}
   PumpPay = FALSE
   HealRounds = 0
   HealDt = 250
